@@ -670,7 +670,12 @@ impl DtlsInner {
                         // restart its message_seq at a value lower than what we expect
                         // (RFC 6347 §4.2.1 says restart at 0, but recv_message_seq may
                         // already be at 1 from the HVR). Sync to the server's counter.
-                        if ctx.post_hvr && is_client {
+                        // A duplicated HelloVerifyRequest is not such a restart: answering it
+                        // again would replace the ClientHello the server is already replying to.
+                        if ctx.post_hvr
+                            && is_client
+                            && msg.msg_type != HandshakeType::HelloVerifyRequest
+                        {
                             debug!(
                                 "post-HVR: syncing recv_message_seq from {} to {} (server restart)",
                                 ctx.recv_message_seq, msg.message_seq
